@@ -318,12 +318,20 @@ def apply_spec(sp, op):
         elif k == "p.integrator":
             ps["integrator_step"] = op["step"]
         elif k == "p.models.set":
+            if op.get("keep"):
+                sp.setdefault("_kept_pm", []).extend(ps["models"])
             ps["models"] = list(op["models"])
         elif k == "p.models.add":
             if len(ps["models"]) < 4:
                 ps["models"].append(op["model"])
         elif k == "p.models.clear":
+            if op.get("keep"):
+                sp.setdefault("_kept_pm", []).extend(ps["models"])
             ps["models"] = []
+        elif k == "p.models.readd":
+            kept = sp.get("_kept_pm", [])
+            if kept and len(ps["models"]) < 4:
+                ps["models"].append(kept.pop(op["which"] % len(kept)))
         elif k == "p.atomic_data":
             ps["provider"] = op["prov"] % len(sp["providers"])
         elif k == "p.transform":
@@ -378,12 +386,20 @@ def apply_spec(sp, op):
     elif k == "b.att.clamp_sigma":
         bs["attenuator"]["clamp_sigma"] = op["value"]
     elif k == "b.models.set":
+        if op.get("keep"):
+            sp.setdefault("_kept_bm", []).extend(bs["models"])
         bs["models"] = list(op["models"])
     elif k == "b.models.add":
         if len(bs["models"]) < 4:
             bs["models"].append(op["model"])
     elif k == "b.models.clear":
+        if op.get("keep"):
+            sp.setdefault("_kept_bm", []).extend(bs["models"])
         bs["models"] = []
+    elif k == "b.models.readd":
+        kept = sp.get("_kept_bm", [])
+        if kept and len(bs["models"]) < 4:
+            bs["models"].append(kept.pop(op["which"] % len(kept)))
     elif k == "b.model.line":
         idx = [j for j, m in enumerate(bs["models"]) if m["cls"] == "BeamCXLine"]
         if idx:
@@ -443,6 +459,14 @@ def mk_dist(d):
 
 def mk_species(s):
     return Species(EL[s["el"]], s["ch"], mk_dist(s["dist"]))
+
+
+def mk_integrator(step):
+    """raysect's NumericalIntegrator.__init__ takes a C float (32 bit) but its `step` setter a double: always finish
+    with the setter so that a constructed and an in-place-modified integrator hold the same step."""
+    i = NumericalIntegrator(step=step)
+    i.step = step
+    return i
 
 
 def mk_geometry(g):
@@ -546,7 +570,7 @@ def build_plasma(s, spec, i):
     p.geometry = mk_geometry(ps["geometry"])
     if ps["geometry_transform"] is not None:
         p.geometry_transform = mk_transform(ps["geometry_transform"])
-    p.integrator = NumericalIntegrator(step=ps["integrator_step"])
+    p.integrator = mk_integrator(ps["integrator_step"])
     p.atomic_data = s.providers[ps["provider"]]
     if ps["models"]:
         p.models = [mk_plasma_model(m) for m in ps["models"]]
@@ -562,7 +586,7 @@ def build_beam(s, spec, i):
     b.atomic_data = s.providers[bs["provider"]]
     b.plasma = s.plasmas[bs["plasma"]]
     b.attenuator = mk_attenuator(bs["attenuator"])
-    b.integrator = NumericalIntegrator(step=bs["integrator_step"])
+    b.integrator = mk_integrator(bs["integrator_step"])
     if bs["models"]:
         b.models = [mk_beam_model(m) for m in bs["models"]]
     return b
@@ -572,7 +596,7 @@ def build_laser(s, spec):
     ls = spec["laser"]
     l = Laser(parent=(s.world if ls["parent"] == "world" else (s.frames["fl0"] if ls["parent"] == "frame" else None)),
               transform=mk_transform(ls["transform"]), name="laser")
-    l.integrator = NumericalIntegrator(step=ls["integrator_step"])
+    l.integrator = mk_integrator(ls["integrator_step"])
     l.plasma = s.plasmas[ls["plasma"]]
     l.laser_spectrum = laser_construct(ls["spectrum"]["kind"], ls["spectrum"]["spec"])
     l.laser_profile = laser_construct(ls["profile"]["kind"], ls["profile"]["spec"])
@@ -595,7 +619,7 @@ class Ctx:
 class SceneMachine(Machine):
     pid = "C01"
     title = "Plasma/beam/laser changes never leave stale derived state"
-    quick_runs = 2500
+    quick_runs = 3000
     thorough_runs = 300000
     quick_deadline = 480
     thorough_deadline = 7200
@@ -680,10 +704,11 @@ class SceneMachine(Machine):
 
     def _kinds(self, spec):
         k = ["p.bfield", "p.electron", "p.comp.add", "p.comp.set", "p.comp.clear", "p.geometry", "p.geomtransform", "p.integrator",
-             "p.models.set", "p.models.add", "p.models.clear", "p.atomic_data", "p.transform", "p.parent", "frame.transform", "p.recreate"]
+             "p.models.set", "p.models.add", "p.models.clear", "p.models.readd", "p.atomic_data", "p.transform", "p.parent",
+             "frame.transform", "p.recreate"]
         if spec["beams"]:
             k += ["b.set", "b.set", "b.element", "b.atomic_data", "b.plasma", "b.attenuator", "b.att.step", "b.att.clamp_sigma",
-                  "b.models.set", "b.models.add", "b.models.clear", "b.model.line", "b.integrator", "b.transform", "b.parent",
+                  "b.models.set", "b.models.add", "b.models.clear", "b.models.readd", "b.model.line", "b.integrator", "b.transform", "b.parent",
                   "b.recreate", "b.reject"]
         if spec.get("laser"):
             k += ["l.profile.set", "l.profile.set", "l.profile.polarize", "l.profile", "l.spectrum", "l.spectrum.set", "l.plasma",
@@ -729,6 +754,8 @@ class SceneMachine(Machine):
             op["models"] = [gen_plasma_model(rng, comp) for _ in range(rng.randint(0, 3))]
         elif kind == "p.models.add":
             op["model"] = gen_plasma_model(rng, comp)
+        elif kind == "p.models.readd":
+            op["which"] = rng.randrange(8)
         elif kind in ("p.atomic_data",):
             op["prov"] = rng.randrange(nprov)
         elif kind in ("p.transform",):
@@ -804,6 +831,8 @@ class SceneMachine(Machine):
                 op["models"] = [gen_beam_model(rng, bcomp, bs["element"]) for _ in range(rng.randint(0, 3))]
             elif kind == "b.models.add":
                 op["model"] = gen_beam_model(rng, bcomp, bs["element"])
+            elif kind == "b.models.readd":
+                op["which"] = rng.randrange(8)
             elif kind == "b.model.line":
                 op["which"] = rng.randrange(4)
                 op["line"] = gen_line(rng, [s for s in bcomp if s["ch"] > 0] or bcomp)
@@ -820,6 +849,8 @@ class SceneMachine(Machine):
         chans = ["ray", "ray", "ray", "plasma.fields"]
         if spec["beams"]:
             chans += ["beam.density", "beam.density", "beam.direction", "att.density", "ray"]
+        if spec.get("laser"):
+            chans += ["laser.materials", "ray"]
         ch = rng.choice(chans)
         return {"op": "observe", "channel": ch, "which": rng.randrange(6), "twice": rng.random() < 0.25}
 
@@ -838,6 +869,18 @@ class SceneMachine(Machine):
                 for pt in PLASMA_POINTS:
                     out.append(p.ion_density(*pt))
                     out.append(p.z_effective(*pt))
+                return "ok", np.array(out, dtype=float)
+            if channel == "laser.materials":
+                if scene.laser is None:
+                    return "ok", np.zeros(0)
+                out = []
+                for seg in sorted(scene.laser.get_geometry(), key=lambda g: g.transform[2, 3]):
+                    m = seg.material
+                    is_lm = type(m).__name__ == "LaserMaterial"
+                    out += [1.0 if is_lm else 0.0, float(getattr(m, "importance", -1.0)),
+                            float(m.integrator.step) if is_lm else -1.0, float(seg.transform[2, 3]), float(seg.height), float(seg.radius),
+                            1.0 if seg.parent is scene.laser else 0.0]
+                out.append(float(len(scene.laser.children)))
                 return "ok", np.array(out, dtype=float)
             if not scene.beams:
                 return "ok", np.zeros(0)
@@ -898,6 +941,8 @@ class SceneMachine(Machine):
         c.spec = copy.deepcopy(cfg["spec"])
         c.scene = build_scene(c.spec)
         c.kept = []
+        c.kept_pm = []
+        c.kept_bm = []
         c.observed = False
         c.mutated_after_obs = False
         c.fault_fired = 0
@@ -1005,6 +1050,8 @@ class SceneMachine(Machine):
         for which in range(len(c.spec["beams"])):
             for ch in ("beam.density", "beam.direction", "att.density"):
                 self._compare(c, env, ch, which, after)
+        if c.spec.get("laser"):
+            self._compare(c, env, "laser.materials", 0, after)
         if c.mutated_after_obs:
             env.nontrivial = True
 
@@ -1056,18 +1103,23 @@ class SceneMachine(Machine):
                     p.integrator.step = op["step"]
                 else:
                     self._dispose(c, op, p.integrator)
-                    p.integrator = NumericalIntegrator(step=op["step"])
+                    p.integrator = mk_integrator(op["step"])
             elif k == "p.models.set":
                 if op.get("keep"):
-                    c.kept.append(list(p.models))
+                    c.kept_pm.extend(list(p.models))
                 p.models = [mk_plasma_model(m) for m in op["models"]]
+            elif k == "p.models.readd":
+                if not c.kept_pm or len(ps["models"]) >= 4:
+                    return "noop"
+                p.models.add(c.kept_pm.pop(op["which"] % len(c.kept_pm)))
+                env.probe("model_instance_moved_between_lists")
             elif k == "p.models.add":
                 if len(ps["models"]) >= 4:
                     return "noop"
                 p.models.add(mk_plasma_model(op["model"]))
             elif k == "p.models.clear":
                 if op.get("keep"):
-                    c.kept.append(list(p.models))
+                    c.kept_pm.extend(list(p.models))
                 p.models.clear()
             elif k == "p.atomic_data":
                 p.atomic_data = s.providers[op["prov"] % len(s.providers)]
@@ -1127,15 +1179,20 @@ class SceneMachine(Machine):
             b.attenuator.clamp_sigma = op["value"]
         elif k == "b.models.set":
             if op.get("keep"):
-                c.kept.append(list(b.models))
+                c.kept_bm.extend(list(b.models))
             b.models = [mk_beam_model(m) for m in op["models"]]
+        elif k == "b.models.readd":
+            if not c.kept_bm or len(bs["models"]) >= 4:
+                return "noop"
+            b.models.add(c.kept_bm.pop(op["which"] % len(c.kept_bm)))
+            env.probe("model_instance_moved_between_lists")
         elif k == "b.models.add":
             if len(bs["models"]) >= 4:
                 return "noop"
             b.models.add(mk_beam_model(op["model"]))
         elif k == "b.models.clear":
             if op.get("keep"):
-                c.kept.append(list(b.models))
+                c.kept_bm.extend(list(b.models))
             b.models.clear()
         elif k == "b.model.line":
             ms = list(b.models)
@@ -1149,7 +1206,7 @@ class SceneMachine(Machine):
                 b.integrator.step = op["step"]
             else:
                 self._dispose(c, op, b.integrator)
-                b.integrator = NumericalIntegrator(step=op["step"])
+                b.integrator = mk_integrator(op["step"])
         elif k == "b.transform":
             b.transform = mk_transform(op["t"])
         elif k == "b.parent":
@@ -1200,7 +1257,7 @@ class SceneMachine(Machine):
             else:
                 self._dispose(c, op, l.integrator)
                 try:
-                    l.integrator = NumericalIntegrator(step=op["step"])
+                    l.integrator = mk_integrator(op["step"])
                 except AttributeError:
                     # segments without an emitting material: the value is stored nevertheless (observed, not judged)
                     env.probe("laser_integrator_setter_raised")
